@@ -90,6 +90,34 @@ fn run_edition(ctx: &mut Ctx, edition: u8) {
             }
         });
     }
+    // format strings: every format-string macro x placeholder shapes (positional indices at and beyond the
+    // integer ranges, names, specs, unbalanced and escaped braces, non-ASCII) x argument lists
+    let placeholders: &[&str] = &[
+        "{}", "{0}", "{1}", "{2}", "{a}", "{b}", "{a}{}", "{}{}", "{0}{}", "{", "}", "{{", "}}", "{{}", "{}}", "{{}}", "{{0}}", "{:?}", "{0:?}", "{a:?}", "{:x}", "{:}", "{:?", "{ }", "{0 }", "{ 0}", "{-1}",
+        "{+1}", "{00}", "{01}", "{4294967295}", "{4294967296}", "{18446744073709551615}", "{18446744073709551616}", "{340282366920938463463374607431768211456}", "{99999999999999999999999999999999999999999999}",
+        "{3a}", "{a3}", "{_}", "{a.b}", "{a::b}", "{é}", "{\u{e9}}", "{\\n}", "{0}{1}{2}{3}", "{a}{a}", "{0:?}{0}", "{:?}{:?}", "x{}y{}z", "",
+    ];
+    let macro_calls: &[(&str, &str)] = &[
+        ("format", "fn f(a: u8, b: felt252) -> ByteArray { format!(\"$S\"$ARGS) }"),
+        ("write", "fn f(a: u8, b: felt252, ref fm: core::fmt::Formatter) -> Result<(), core::fmt::Error> { write!(fm, \"$S\"$ARGS) }"),
+        ("writeln", "fn f(a: u8, b: felt252, ref fm: core::fmt::Formatter) -> Result<(), core::fmt::Error> { writeln!(fm, \"$S\"$ARGS) }"),
+        ("print", "fn f(a: u8, b: felt252) { print!(\"$S\"$ARGS) }"),
+        ("println", "fn f(a: u8, b: felt252) { println!(\"$S\"$ARGS); }"),
+        ("panic", "fn f(a: u8, b: felt252) { panic!(\"$S\"$ARGS) }"),
+        ("assert", "fn f(a: u8, b: felt252) { assert!(a == 1, \"$S\"$ARGS); }"),
+        ("assert_eq", "fn f(a: u8, b: felt252) { assert_eq!(a, 1, \"$S\"$ARGS); }"),
+    ];
+    let arg_lists: &[&str] = &["", ", a", ", a, b", ", a, b, a", ", a = a", ", x = b, a", ","];
+    for (mname, tpl) in macro_calls {
+        ctx.case(|| json!({"space":"sem-format-strings","macro":mname}), |ctx| {
+            for ph in placeholders {
+                for args in arg_lists {
+                    let text = tpl.replace("$S", ph).replace("$ARGS", args);
+                    check(ctx, &text, json!({"macro": mname, "format_string": ph, "args": args}));
+                }
+            }
+        });
+    }
     // nesting
     let depths: Vec<usize> = match tier {
         Tier::Quick => vec![1, 2, 5, 20, 60],
